@@ -541,6 +541,11 @@ func (c *FunctionComposer) Compose(ctx context.Context, xr *composite.Unstructur
 	xr.SetName(n)
 	xr.SetUID(u)
 
+	// Functions can't set system conditions like Ready and Synced using the
+	// conditions of a RunFunctionResponse. They can't set them using the
+	// desired XR's status either.
+	dropSystemConditions(xr)
+
 	// NOTE(phisco): Here we are fine using a hardcoded field owner as there is
 	// no risk of conflict between different XRs.
 	if err := c.client.Status().Patch(ctx, xr, client.Apply, client.ForceOwnership, client.FieldOwner(FieldOwnerXR)); err != nil {
@@ -551,6 +556,33 @@ func (c *FunctionComposer) Compose(ctx context.Context, xr *composite.Unstructur
 	}
 
 	return CompositionResult{ConnectionDetails: d.GetComposite().GetConnectionDetails(), Composite: compositeRes, Composed: resources, Events: events, Conditions: conditions}, nil
+}
+
+// dropSystemConditions removes any system conditions from the status of the
+// supplied XR.
+func dropSystemConditions(xr *composite.Unstructured) {
+	status, ok := xr.Object["status"].(map[string]any)
+	if !ok {
+		return
+	}
+	conds, ok := status["conditions"].([]any)
+	if !ok {
+		return
+	}
+	keep := make([]any, 0, len(conds))
+	for _, c := range conds {
+		if m, ok := c.(map[string]any); ok {
+			if t, _ := m["type"].(string); xpv1.IsSystemConditionType(xpv1.ConditionType(t)) {
+				continue
+			}
+		}
+		keep = append(keep, c)
+	}
+	if len(keep) == 0 {
+		delete(status, "conditions")
+		return
+	}
+	status["conditions"] = keep
 }
 
 // ComposedFieldOwnerName generates a unique field owner name
